@@ -61,7 +61,7 @@ func runC14(c *sim.Ctx) {
 		}
 		lens[0], lens[1] = true, true
 		// a payload beyond 2^21 bytes: payload-size and serial-type varints of 4 bytes
-		if u >= 4096 && s.Chance(1, 3, "two-mebibytes") {
+		if u >= 4096 && s.Chance(1, map[bool]int{true: 3, false: 6}[c.Tier == "thorough"], "two-mebibytes") {
 			lens[(1<<21)+1+s.Draw(200, "over2m")] = true
 			c.Probe("varint-4-bytes")
 		}
@@ -212,7 +212,7 @@ func init() {
 	sim.Register(&sim.Prop{
 		ID: "C14", Engine: "E-WORLD", Level: "exploration", Fn: runC14, NewEnv: NewEnv,
 		Runs: map[string]int{"quick": 96, "thorough": 1200},
-		Rule: "per run: one page size (all nine are drawn from); real SQLite stores (a) text or blob payloads of EVERY length 0..3 pages (+40) for 512/1024-byte pages (two runs in three), otherwise lengths X-9..X+4 around every local-payload threshold (table X, index X, M, the K-flip lengths for 0..3 overflow pages), 40 drawn lengths, chains of 1,2,3,5,20 overflow pages and (one run in three on pages >= 4096) a payload of 2^21+ bytes whose payload-size and serial-type varints take 4 bytes - in table leaf cells, in index cells (CREATE INDEX) and as WITHOUT ROWID primary keys; (b) every integer-width boundary +-1, all float classes, rowids needing 1..9 varint bytes incl. negative; (c) rows of 70-130 columns (record header > 127 bytes, multi-byte serial types); everything is read back through Select and IndexedSelect and compared with SQLite value by value; evaluations = reads compared; distinct = distinct event logs; states = (page size, exhaustive?, text/blob)",
+		Rule: "per run: one page size (all nine are drawn from); real SQLite stores (a) text or blob payloads of EVERY length 0..3 pages (+40) for 512/1024-byte pages (two runs in three), otherwise lengths X-9..X+4 around every local-payload threshold (table X, index X, M, the K-flip lengths for 0..3 overflow pages), 40 drawn lengths, chains of 1,2,3,5,20 overflow pages and (one run in six - thorough: three - on pages >= 4096) a payload of 2^21+ bytes whose payload-size and serial-type varints take 4 bytes - in table leaf cells, in index cells (CREATE INDEX) and as WITHOUT ROWID primary keys; (b) every integer-width boundary +-1, all float classes, rowids needing 1..9 varint bytes incl. negative; (c) rows of 70-130 columns (record header > 127 bytes, multi-byte serial types); everything is read back through Select and IndexedSelect and compared with SQLite value by value; evaluations = reads compared; distinct = distinct event logs; states = (page size, exhaustive?, text/blob)",
 		Real: append([]string{"unix file pager on real files"}, realAll...), Stub: []string{},
 		Assumptions: []string{"fault-free configuration; input-space exploration evaluated inside the simulated world (see DESIGN §7 remark): the property has no schedule or fault", "9-byte serial types cannot be produced by SQLite; that part of the quantifier is reached under C05 only"},
 		MaxRunSecs: 600,
